@@ -509,6 +509,9 @@ package graphql
 //@   ensures typeis(node, "*ast.Field") ==> len(ti.fieldDefStack) == old(len(ti.fieldDefStack)) + 1 && len(ti.typeStack) == old(len(ti.typeStack)) + 1 && len(ti.inputTypeStack) == old(len(ti.inputTypeStack)) && len(ti.parentTypeStack) == old(len(ti.parentTypeStack))
 //@   ensures typeis(node, "*ast.SelectionSet") ==> len(ti.parentTypeStack) == old(len(ti.parentTypeStack)) + 1 && len(ti.typeStack) == old(len(ti.typeStack)) && len(ti.inputTypeStack) == old(len(ti.inputTypeStack))
 //@   ensures typeis(node, "*ast.OperationDefinition") || typeis(node, "*ast.InlineFragment") || typeis(node, "*ast.FragmentDefinition") ==> len(ti.typeStack) == old(len(ti.typeStack)) + 1 && len(ti.inputTypeStack) == old(len(ti.inputTypeStack)) && len(ti.parentTypeStack) == old(len(ti.parentTypeStack))
+// an inline fragment without a type condition is typed by the NAMED type in scope (never its list / non-null wrapper)
+//@   ensures typeis(node, "*ast.InlineFragment") && as(node, "*ast.InlineFragment") != nil && as(node, "*ast.InlineFragment").TypeCondition == nil && (typeis(GetNamed_0(old(TypeInfo.Type_0(ti))), "*graphql.Object") || typeis(GetNamed_0(old(TypeInfo.Type_0(ti))), "*graphql.Interface") || typeis(GetNamed_0(old(TypeInfo.Type_0(ti))), "*graphql.Union")) ==> ti.typeStack[len(ti.typeStack)-1] == GetNamed_0(old(TypeInfo.Type_0(ti)))
+//@   ensures typeis(node, "*ast.InlineFragment") && as(node, "*ast.InlineFragment") != nil && as(node, "*ast.InlineFragment").TypeCondition == nil ==> !typeis(ti.typeStack[len(ti.typeStack)-1], "*graphql.List") && !typeis(ti.typeStack[len(ti.typeStack)-1], "*graphql.NonNull")
 //@   ensures typeis(node, "*ast.VariableDefinition") || typeis(node, "*ast.Argument") ==> len(ti.inputTypeStack) == old(len(ti.inputTypeStack)) + 1 && len(ti.typeStack) == old(len(ti.typeStack)) && len(ti.parentTypeStack) == old(len(ti.parentTypeStack))
 
 // ---- type relations and interface implementation (C02, C11) ----------------------------------
